@@ -10,10 +10,11 @@ from ..mutants import Mut
 from ..rules import ret, sib
 from ..rules.defuse import DefUse
 from ..rules.exc import ExcEngine
-from ..rules.util import callee_name, cfg_of, nodes_where
+from ..rules.util import callee_name, cfg_of, node_exprs, nodes_where
 from ..tables import C08_RET_EXEMPT
 
 EXPLANATION = (
+    '(21) GUARD: a parameter that is range-tested against a length and stored as the focus is first shown to be an integer - isinstance test whose failing edge raises, operator.index - unless the store goes through the MonitoredFocusList.focus property (before fix 54e7f14 SimpleListWalker.set_focus(0.5) stored the float and the ListBox then reported itself empty). '
     "Decided (necessary structural conditions of C08): (1) setter validation: in every focus_position setter (Pile, Columns, GridFlow, Frame, Overlay; Widget's default) the store of the "
     "focus state is dominated by a range / membership test whose failing edge raises IndexError, the three list containers share one body (sibling comparison) including the "
     "TypeError -> IndexError conversion, and the getters raise IndexError for an empty container; (2) selectable follows the contents: Pile and Columns recompute _selectable from "
@@ -683,6 +684,61 @@ def rule_frame_focus_arg(ctx: Ctx) -> RuleResult:
     return rr
 
 
+def rule_integral_position(ctx: Ctx) -> RuleResult:
+    """'assigning an invalid position raises IndexError': a position that is validated by order comparisons against
+    len(...) alone is not yet an index - 0 <= 0.5 < 3 holds.  Wherever a parameter is range-tested against a length
+    and then stored as the focus, either the store goes through the MonitoredFocusList.focus property (whose setter
+    converts with operator.index, C08.9a) or the store itself is dominated by an integrality step on that parameter:
+    an isinstance(<p>, int) test whose failing edge raises, or operator.index(<p>).  Before fix 54e7f14
+    SimpleListWalker.set_focus(0.5) stored the float; every later get_focus() then failed to index the list and the
+    ListBox reported itself empty."""
+    p = ctx.p
+    rr = RuleResult("GUARD", "C08.21", "a parameter range-tested against len(...) and stored as the focus is first shown to be an integer (isinstance test raising / operator.index) unless the store goes through MonitoredFocusList.focus", floor=5)
+    mfl = p.cls("urwid.widget.monitored_list.MonitoredFocusList")
+    for fi in p.functions.values():
+        if not fi.module.name.startswith("urwid.widget") or fi.is_lambda:
+            continue
+        params = set(fi.all_params) - {fi.self_name, "cls"}
+        cfg = None
+        for n in fi.own_nodes():
+            if not (isinstance(n, ast.Assign) and isinstance(n.value, ast.Name) and n.value.id in params):
+                continue
+            prm = n.value.id
+            tg = [t for t in n.targets if isinstance(t, ast.Attribute)]
+            if not tg:
+                continue
+            if not any(isinstance(c, ast.Compare) and "len(" in ast.unparse(c) and any(isinstance(x, ast.Name) and x.id == prm for x in ast.walk(c)) and any(isinstance(o, (ast.Lt, ast.LtE, ast.Gt, ast.GtE)) for o in c.ops) for c in fi.own_nodes()):
+                continue
+            t = tg[0]
+            ident = f"{short(fi)}: {norm(n, 50)}"
+            in_mfl = fi.cls is not None and mfl in p.mro(fi.cls)
+            via_property = t.attr == "focus" and (not (isinstance(t.value, ast.Name) and t.value.id == fi.self_name) or (in_mfl and fi.name != "focus"))
+            if via_property:
+                rr.inst(ident, True, {"store": ident, "integrality": "MonitoredFocusList.focus setter (C08.9a)"})
+                continue
+            cfg = cfg or cfg_of(fi)
+            sn = next((x for x in cfg.nodes if x.stmt is n), None)
+            if sn is None:
+                continue
+            ok = False
+            how = None
+            for x in cfg.nodes:
+                txt = [c for e in node_exprs(x) for c in walk_no_nested(e) if isinstance(c, ast.Call)]
+                for c in txt:
+                    nm = callee_name(c)
+                    if nm == "index" and isinstance(c.func, ast.Attribute) and ast.unparse(c.func.value) == "operator" and c.args and isinstance(c.args[0], ast.Name) and c.args[0].id == prm and cfg.dominated(sn, [x]):
+                        ok, how = True, norm(c, 40)
+                    if nm == "isinstance" and x.kind == "test" and len(c.args) == 2 and isinstance(c.args[0], ast.Name) and c.args[0].id == prm and ast.unparse(c.args[1]) in ("int", "numbers.Integral", "Integral") and cfg.dominated(sn, [x]):
+                        # the store is unreachable along one edge of the test (that edge raises)
+                        for lab in ("T", "F"):
+                            if sn not in cfg.reachable_from_edges([(x, lab)], avoid=[]):
+                                ok, how = True, norm(x.ast, 60)
+            rr.inst(ident, True, {"store": ident, "integrality": how})
+            if not ok:
+                rr.add(finding("GUARD", fi, n, f"`{norm(n, 50)}` stores `{prm}` as the focus after order comparisons against a length only: a non-integral number inside the range (0.5) is accepted, after which the container cannot index its focus any more and reports itself empty", construct=f"non-integral {prm} stored as focus"))
+    return rr
+
+
 def run(ctx: Ctx):
     p = ctx.p
     from ..rules import optcall, sentinel
@@ -713,6 +769,7 @@ def run(ctx: Ctx):
         rule_contents_rw(ctx),
         rule_gridflow_focus_sync(ctx),
         rule_frame_focus_arg(ctx),
+        rule_integral_position(ctx),
         optcall.run_optcall(p, "C08.13", ("urwid.widget",), floor=35),
     ]
 
@@ -722,6 +779,9 @@ _C = "urwid/widget/columns.py"
 _G = "urwid/widget/grid_flow.py"
 _F = "urwid/widget/frame.py"
 MUTANTS = [
+    Mut("walker-accepts-float-position", "urwid/widget/listbox.py", "SimpleListWalker.set_focus", "        if not isinstance(position, int) or not 0 <= position < len(self):", "        if not 0 <= position < len(self):", "GUARD|widget.listbox.SimpleListWalker.set_focus|non-integral position stored as focus"),
+    Mut("twin-walker-integrality-own-test", "urwid/widget/listbox.py", "SimpleListWalker.set_focus", "        if not isinstance(position, int) or not 0 <= position < len(self):\n            raise IndexError(f\"No widget at position {position}\")\n", "        if not isinstance(position, int):\n            raise IndexError(f\"No widget at position {position}\")\n        if not 0 <= position < len(self):\n            raise IndexError(f\"No widget at position {position}\")\n", twin=True),
+    Mut("twin-walker-operator-index", "urwid/widget/listbox.py", "SimpleListWalker.set_focus", "        if not isinstance(position, int) or not 0 <= position < len(self):\n            raise IndexError(f\"No widget at position {position}\")\n", "        import operator\n\n        position = operator.index(position)\n        if not 0 <= position < len(self):\n            raise IndexError(f\"No widget at position {position}\")\n", twin=True),
     Mut("frame-trimmed-header-always-focused", _F, "Frame.render", "head = Filler(self.header, VAlign.TOP).render((maxcol, htrim), focus and self.focus_part == \"header\")", "head = Filler(self.header, VAlign.TOP).render((maxcol, htrim), focus)", "SIB|widget.frame.Frame.render"),
     Mut("gridflow-click-syncs-focus-only-when-handled", _G, "GridFlow.mouse_event", "        super().mouse_event(size, event, button, col, row, focus)\n        self._set_focus_from_display_widget()", "        if super().mouse_event(size, event, button, col, row, focus):\n            self._set_focus_from_display_widget()", "PASS|widget.grid_flow.GridFlow.mouse_event"),
     Mut("overlay-contents-drops-top-widget", "urwid/widget/overlay.py", "Overlay._contents__setitem__", "            self.top_w = value_w\n", "", "SIB|widget.overlay.Overlay._contents__setitem__"),
